@@ -1,8 +1,6 @@
 use tevec::prelude::*;
 fn main() {
-    let a = vec![f64::NAN, 2., 3., 5.];
-    let b = vec![1., 2., 4., 4.];
-    let r = std::panic::catch_unwind(|| { let r: Vec<f64> = a.ts_vcov(&b, 3, Some(0)); r });
-    println!("ts_vcov mp=0: {:?}", r.map_err(|_| "PANIC"));
-    let r: Vec<f64> = a.ts_vcov(&b, 3, Some(1)); println!("ts_vcov mp=1: {:?}", r);
+    let x: Vec<f64> = (0..20).map(|i| i as f64).collect();
+    println!("half_life(0..20) = {}", x.half_life(None));
+    for lag in 8..14 { let c: f64 = x.titer().vcorr_pearson(x.titer().vshift(lag, None), 10); println!("  corr(lag {}) = {}", lag, c); }
 }
